@@ -4,7 +4,11 @@
 (* call through the emitted REST transport, with its interceptor:          *)
 (*   Pre -> Send -> ( Error | Parse -> Post -> PostWithMetadata ) -> End   *)
 (* State: which interceptor hooks ran (in order), how many HTTP requests   *)
-(* went out, what the caller observed.                                     *)
+(* went out, what the caller observed; and the DATA FLOW through the hooks:  *)
+(* the request the pre-hook returns is the one sent; the response the        *)
+(* post-hook returns is the one post_with_metadata receives (together with   *)
+(* the reply's HTTP headers); what post_with_metadata returns is what the    *)
+(* caller gets.  Values are abstract tokens naming who wrote them last.      *)
 (***************************************************************************)
 EXTENDS Naturals, Sequences, FiniteSets, TLC, Json
 
@@ -18,27 +22,38 @@ ErrorClass(s) == CASE s = 400 -> "BadRequest" [] s = 401 -> "Unauthorized" [] s 
                    [] s = 409 -> "Conflict" [] s = 429 -> "TooManyRequests" [] s = 500 -> "InternalServerError"
                    [] s = 503 -> "ServiceUnavailable" [] OTHER -> "none"
 
-VARIABLES kind, status, preAddsMd, hooks, sentCount, sentMd, outcome, phase
-vars == <<kind, status, preAddsMd, hooks, sentCount, sentMd, outcome, phase>>
+VARIABLES kind, status, preAddsMd, hooks, sentCount, sentMd, outcome, phase,
+          preEdits, postEdits, postmEdits,   \* scenario: which hooks rewrite what passes through them
+          sentReq, postmSaw, postmHdr, got   \* observed data flow
+scen == <<kind, status, preAddsMd, preEdits, postEdits, postmEdits>>
+vars == <<kind, status, preAddsMd, hooks, sentCount, sentMd, outcome, phase, preEdits, postEdits, postmEdits, sentReq, postmSaw, postmHdr, got>>
 
-Init == /\ kind \in Kinds /\ status \in Statuses /\ preAddsMd \in BOOLEAN
+\* response rewriting is exercised on unary replies (a stream's reply is an iterator; a void method has no reply)
+Init == /\ kind \in Kinds /\ status \in Statuses /\ preAddsMd \in BOOLEAN /\ preEdits \in BOOLEAN
+        /\ postEdits \in (IF kind = "unary" THEN BOOLEAN ELSE {FALSE}) /\ postmEdits \in (IF kind = "unary" THEN BOOLEAN ELSE {FALSE})
         /\ hooks = <<>> /\ sentCount = 0 /\ sentMd = FALSE /\ outcome = "pending" /\ phase = "start"
+        /\ sentReq = "none" /\ postmSaw = "none" /\ postmHdr = FALSE /\ got = "none"
 Pre == /\ phase = "start" /\ hooks' = Append(hooks, "pre") /\ phase' = "pre"
-       /\ UNCHANGED <<kind, status, preAddsMd, sentCount, sentMd, outcome>>
+       /\ UNCHANGED <<scen, sentCount, sentMd, outcome, sentReq, postmSaw, postmHdr, got>>
 \* the request goes out with the metadata the pre-hook returned
 Send == /\ phase = "pre" /\ sentCount' = sentCount + 1 /\ sentMd' = (preAddsMd /\ Mutant # "ignore_pre_result") /\ phase' = "sent"
-        /\ UNCHANGED <<kind, status, preAddsMd, hooks, outcome>>
+        /\ sentReq' = IF preEdits /\ Mutant \notin {"ignore_pre_result", "ignore_pre_request"} THEN "pre" ELSE "caller"
+        /\ UNCHANGED <<scen, hooks, outcome, postmSaw, postmHdr, got>>
 Error == /\ phase = "sent" /\ status >= 400 /\ Mutant # "swallow_error"
          /\ outcome' = ErrorClass(status) /\ phase' = "done"
-         /\ UNCHANGED <<kind, status, preAddsMd, hooks, sentCount, sentMd>>
+         /\ UNCHANGED <<scen, hooks, sentCount, sentMd, sentReq, postmSaw, postmHdr, got>>
 Parse == /\ phase = "sent" /\ (status < 400 \/ Mutant = "swallow_error") /\ phase' = "parsed"
-         /\ UNCHANGED <<kind, status, preAddsMd, hooks, sentCount, sentMd, outcome>>
+         /\ UNCHANGED <<scen, hooks, sentCount, sentMd, outcome, sentReq, postmSaw, postmHdr, got>>
 \* void methods have no response to post-process
 Post == /\ phase = "parsed"
         /\ hooks' = IF kind = "void" THEN hooks
                     ELSE IF Mutant = "post_order" THEN hooks \o <<"post_with_metadata", "post">> ELSE hooks \o <<"post", "post_with_metadata">>
         /\ outcome' = "ok" /\ phase' = "done"
-        /\ UNCHANGED <<kind, status, preAddsMd, sentCount, sentMd>>
+        /\ LET afterPost == IF postEdits /\ Mutant # "drop_post_result" THEN "post" ELSE "server"
+               afterPostm == IF postmEdits /\ Mutant # "drop_postm_result" THEN "postm" ELSE afterPost
+           IN IF kind = "void" THEN UNCHANGED <<postmSaw, postmHdr, got>>
+              ELSE /\ postmSaw' = afterPost /\ postmHdr' = (Mutant # "no_headers") /\ got' = afterPostm
+        /\ UNCHANGED <<scen, sentCount, sentMd, sentReq>>
 Next == Pre \/ Send \/ Error \/ Parse \/ Post
 Spec == Init /\ [][Next]_vars /\ WF_vars(Next)
 
@@ -49,7 +64,16 @@ Inv_HookOrder == Done /\ outcome = "ok" /\ kind # "void" => hooks = <<"pre", "po
 Inv_NoPostOnError == Done /\ outcome # "ok" => hooks = <<"pre">>
 Inv_ErrorMapped == Done => (outcome = "ok" <=> status < 400) /\ (status >= 400 => outcome = ErrorClass(status))
 Inv_PreHonoured == Done => sentMd = preAddsMd
+\* data flow: each hook's return value is what the next stage works on
+Inv_PreRequestHonoured == Done => sentReq = (IF preEdits THEN "pre" ELSE "caller")
+Inv_PostChain == Done /\ outcome = "ok" /\ kind # "void" =>
+                    /\ postmSaw = (IF postEdits THEN "post" ELSE "server")
+                    /\ got = (IF postmEdits THEN "postm" ELSE postmSaw)
+                    /\ postmHdr
+Inv_NoDataOnError == Done /\ outcome # "ok" => postmSaw = "none" /\ got = "none"
 Live == <>Done
-Case == [kind |-> kind, status |-> status, preAddsMd |-> preAddsMd, expect |-> [hooks |-> hooks, sent |-> sentCount, sentMd |-> sentMd, outcome |-> outcome]]
+Case == [kind |-> kind, status |-> status, preAddsMd |-> preAddsMd, preEdits |-> preEdits, postEdits |-> postEdits, postmEdits |-> postmEdits,
+         expect |-> [hooks |-> hooks, sent |-> sentCount, sentMd |-> sentMd, outcome |-> outcome,
+                     sentReq |-> sentReq, postmSaw |-> postmSaw, postmHdr |-> postmHdr, got |-> got]]
 Emit == Done => PrintT(<<"CASE", ToJson(Case)>>)
 =============================================================================
